@@ -1,7 +1,7 @@
 """H2: the real breadlog binary under the LD_PRELOAD shim, and the extracted driver model on
 the same scenario.  Scenarios are small project trees; the oracle of the model (faults, stop
 points, kill points) is derived from the physical operation index chosen for the shim."""
-import base64, json, os, re, shutil, subprocess, uuid
+import time, base64, json, os, re, shutil, subprocess, uuid
 from . import common as C
 
 DEFAULT_MACROS = "log=info,log=warn,log=error,log=debug,log=trace"
@@ -160,6 +160,15 @@ def run_impl(s, plan=None, release=False, timeout=120, keep=False, setup_hook=No
             open(os.path.join(proj, "Breadlog.lock"), "wb").write(s.lock)
         if setup_hook:
             setup_hook(proj)
+        # the temporary directory is not empty in real life: old files, some of them looking like the
+        # tool's own scratch files left by a killed run
+        decoys = {"breadlog-11111111-2222-3333-4444-555555555555.tmp": b"fn stale() {}\n",
+                  "breadlog-notes.tmp": b"notes\n", "unrelated.txt": b"x\n"}
+        old = time.time() - 3 * 86400
+        for nme, b in decoys.items():
+            dp = os.path.join(tmp, nme)
+            open(dp, "wb").write(b)
+            os.utime(dp, (old, old))
         before = snapshot(proj)
         env = dict(os.environ, LD_PRELOAD=C.SHIM, VSHIM_LOG=os.path.join(d, "trace"),
                    VSHIM_ROOTS=proj + ":" + tmp, TMPDIR=tmp, RUST_BACKTRACE="0")
@@ -179,7 +188,11 @@ def run_impl(s, plan=None, release=False, timeout=120, keep=False, setup_hook=No
         o.trace = parse_trace(os.path.join(d, "trace"))
         o.before = before
         o.after = snapshot(proj)
-        o.tmp_left = sorted(os.listdir(tmp))
+        o.tmp_decoys_changed = sorted(nme for nme, b in decoys.items()
+                                      if not os.path.exists(os.path.join(tmp, nme))
+                                      or open(os.path.join(tmp, nme), "rb").read() != b
+                                      or abs(os.path.getmtime(os.path.join(tmp, nme)) - old) > 2)
+        o.tmp_left = sorted(x for x in os.listdir(tmp) if x not in decoys)
         lp = os.path.join(proj, "Breadlog.lock")
         o.lock = open(lp, "rb").read() if os.path.exists(lp) else None
         o.missing = [(os.path.relpath(m.group(1), os.path.join(proj, "src")), int(m.group(2)), int(m.group(3)))
